@@ -222,6 +222,36 @@ c16_points!(c16_q_points, 3, 11);
 #[cfg(feature = "thorough")]
 c16_points!(c16_t_points_5x5, 5, 27);
 
+/// The trait implementations of the top-level crate (`ContainsPoint`, `OffsetOutline`, `Dimensions`,
+/// `Transform`) describe the same point sets as the inherent methods of the core crate.
+#[cfg_attr(kani, kani::proof, kani::unwind(3))]
+pub fn c16_q_trait_impls() {
+    use embedded_graphics::primitives::{ContainsPoint, OffsetOutline};
+    let r = rect(PB, SB);
+    let q = point(QB);
+    let n = small_i(8);
+    note!("r", r);
+    note!("q", q);
+    note!("n", n);
+    check!(ContainsPoint::contains(&r, q) == in_rect(&r, q), "C16.trait_contains");
+    let o = OffsetOutline::offset(&r, n);
+    note!("offset", o);
+    check!(o == r.offset(n), "C16.trait_offset_eq_inherent");
+    check!(w(&o) == max(w(&r) + 2 * n as i64, 0) && h(&o) == max(h(&r) + 2 * n as i64, 0), "C16.trait_offset_size");
+    if w(&r) > 0 && h(&r) > 0 && w(&r) + 2 * (n as i64) > 0 && h(&r) + 2 * (n as i64) > 0 {
+        check!(l(&o) == l(&r) - n as i64 && t(&o) == t(&r) - n as i64, "C16.trait_offset_sides");
+    }
+    check!(Dimensions::bounding_box(&r) == r, "C16.bounding_box_is_self");
+    let d = point(PB);
+    let m = Transform::translate(&r, d);
+    check!(m.size == r.size && m.top_left.x as i64 == l(&r) + d.x as i64 && m.top_left.y as i64 == t(&r) + d.y as i64, "C16.translate");
+    let mut m2 = r;
+    Transform::translate_mut(&mut m2, d);
+    check!(m2 == m, "C16.translate_mut");
+    reach!(ContainsPoint::contains(&r, q), "reach.inside");
+    reach!(n < 0 && o.is_zero_sized() && !r.is_zero_sized(), "reach.collapse");
+}
+
 /// Self-test: the repository's own rectangle expectations, concrete.
 #[cfg_attr(kani, kani::proof, kani::unwind(3))]
 pub fn c16_q_selftest() {
